@@ -293,3 +293,32 @@ def lifetimes_of(log):
                 lt['close_at'] = pos
                 lt['close_t'] = t
     return out
+
+
+
+class ShortReads(object):
+    """A raw-IO style file object: read(n) may return fewer than n bytes before the end of the file (pipes, sockets and
+    unbuffered files do)."""
+
+    def __init__(self, f):
+        self.f = f
+        self.k = 0
+
+    def read(self, n=-1):
+        self.k += 1
+        if n is None or n < 0:
+            return self.f.read()
+        return self.f.read(max(1, min(n, [7, 4096, n, 1000, 65535][self.k % 5])))
+
+    def write(self, b):
+        return self.f.write(b)
+
+    def close(self):
+        return self.f.close()
+
+    def __enter__(self):
+        return self
+
+    def __exit__(self, *a):
+        self.f.close()
+        return False
